@@ -483,6 +483,28 @@ def run_threshold(case):
             else:
                 res.ok("below-threshold-rejected", nontrivial=(c["bits"], c["sv"], c["pp"], c["e"], c["id"], c["rs"], k, n, comb))
     if case["mode"] in ("all", "windows") or case.get("size") == m:
+        # ONE ShareSet object asked with a wrong, the right, another wrong and the right passphrase in turn: every
+        # answer must be the reference's for that passphrase (state kept on the object between calls is exposed)
+        from buidl.shamir import Share
+
+        def reuse():
+            ss = ShareSet([Share.parse(x) for x in shares])
+            out = []
+            for p2 in (pp + b"x", pp, pp + b"y", pp):
+                out.append(ss.recover(p2))
+            return out
+
+        got = attempt(reuse)
+        try:
+            decs = [ref.decode_share(x) for x in shares]
+            want = [ref.recover(decs, p2, exact=False) for p2 in (pp + b"x", pp, pp + b"y", pp)]
+        except Exception:
+            want = None
+        if want is not None and m >= k:
+            if got != want:
+                res.violation(f"C15/threshold/recover-on-reused-shareset/{tag}", vc, repr(got)[:200], [w.hex() for w in want], "ShareSet.recover on one object with passphrases (wrong, right, wrong2, right) in turn differs from the reference for those passphrases")
+            else:
+                res.ok("reused ShareSet: each passphrase its own answer", nontrivial=("reuse", c["bits"], c["pp"], c["e"], k, n))
         # wrong passphrase on the full set must not give the original mnemonic
         r = attempt(ShareSet.recover_mnemonic, list(shares), pp + b"x")
         if r == mn:
